@@ -3,6 +3,7 @@ package c13
 import (
 	"bytes"
 	"context"
+	"errors"
 	"fmt"
 	"io"
 	"math/rand"
@@ -121,6 +122,11 @@ type env struct {
 	phase    string
 	aborted  bool
 	dropLink bool
+
+	fatalOnce sync.Once
+	fatal     chan struct{} // closed when a library call panicked: the scenario ends at once
+	linkLost  bool          // the library closed the TNC link on its own
+	regFailed bool
 }
 
 func (e *env) vio(key, format string, a ...any) {
@@ -128,6 +134,23 @@ func (e *env) vio(key, format string, a ...any) {
 	e.omu.Lock()
 	defer e.omu.Unlock()
 	e.o.Violate(key, "[%s] "+format, append([]any{ph}, a...)...)
+}
+
+// apiErr reports an API call that failed although the simulated TNC did its part. The library's
+// own reply timeouts (3 s, 10 s, 30 s) are wall-clock: such an error counts only when the reply
+// demonstrably reached the library (in-memory link, every byte consumed); otherwise the machine
+// may simply have been too busy and the execution is inconclusive.
+func (e *env) apiErr(key string, err error, format string, a ...any) {
+	if err != nil {
+		msg := err.Error()
+		if strings.Contains(msg, "timeout") || errors.Is(err, context.DeadlineExceeded) {
+			if !(e.host != nil && e.host.Unread() == 0) {
+				e.inconclusive(fmt.Sprintf("%s/%s seed %d: %s with a timeout error (%v) on a link whose consumption cannot be observed", e.sc.Class, e.sc.Link, e.sc.Seed, key, err))
+				return
+			}
+		}
+	}
+	e.vio(key, format, a...)
 }
 
 func (e *env) count(name string, n int64) {
@@ -156,6 +179,7 @@ func (e *env) guard(f func()) {
 			e.omu.Lock()
 			e.o.Violations = append(e.o.Violations, v)
 			e.omu.Unlock()
+			e.fatalOnce.Do(func() { close(e.fatal) })
 		}
 	}()
 	f()
@@ -202,6 +226,13 @@ func (e *env) await(done <-chan struct{}) bool {
 		select {
 		case <-done:
 			return true
+		case <-e.fatal:
+			select {
+			case <-done:
+				return true
+			case <-time.After(200 * time.Millisecond):
+			}
+			return false
 		case <-t.C:
 			if p := e.progress(); p != last {
 				last, lastChange = p, time.Now()
@@ -236,6 +267,11 @@ func (e *env) stuck(what string) {
 	e.mu.Unlock()
 	if already {
 		return
+	}
+	select {
+	case <-e.fatal:
+		return // a panic was recorded; whatever hangs now is a consequence
+	default:
 	}
 	consumed := e.host != nil && e.host.Unread() == 0
 	if consumed && !e.sc.tolerant() {
@@ -333,7 +369,7 @@ func harmlessFrame(r *rand.Rand, port uint8) simagw.Frame {
 		}
 		return simagw.Frame{Kind: 'd', Port: otherPort(r, port), From: remoteCall, To: myCall, Data: []byte("*** DISCONNECTED From Station " + remoteCall + "\r\x00")}
 	case 9: // stray short control replies nobody asked for
-		return simagw.Frame{Kind: vrt.Pick(r, []byte{'R', 'G', 'y', 'H'}), Port: port, Data: vrt.Bytes(r, r.Intn(5))}
+		return simagw.Frame{Kind: vrt.Pick(r, []byte{'G', 'y', 'H', 'T'}), Port: port, Data: vrt.Bytes(r, r.Intn(5))}
 	default: // empty frame of an unknown kind
 		return simagw.Frame{Kind: 'z', Port: port}
 	}
@@ -403,7 +439,8 @@ func (e *env) open() (ok bool) {
 		return false
 	}
 	if regErr != nil {
-		e.vio("api:register:error", "RegisterPort(%d,%q) failed although the TNC confirmed the registration: %v", sc.Port, myCall, regErr)
+		e.regFailed = true // RegisterPort closes the TNC itself in that case
+		e.apiErr("api:register:error", regErr, "RegisterPort(%d,%q) failed although the TNC confirmed the registration: %v", sc.Port, myCall, regErr)
 		return false
 	}
 	if !e.sim.WaitState(time.Second, func(v *simagw.View) bool { return v.Registered(myCall) }) {
@@ -427,7 +464,7 @@ func (e *env) version() {
 	case e.sc.ShortR >= 0:
 		e.count("malformed_R_reply_sent", 1)
 	case err != nil:
-		e.vio("api:version:error", "Version() failed although the TNC answered 'R' with 8 bytes: %v", err)
+		e.apiErr("api:version:error", err, "Version() failed although the TNC answered 'R' with 8 bytes: %v", err)
 	case v != "2005.127":
 		e.vio("api:version:value", "Version() = %q, the TNC reported major 2005 minor 127", v)
 	default:
@@ -620,6 +657,11 @@ func (e *env) reader(done chan struct{}) {
 				e.mu.Unlock()
 				e.readerBytes.Add(int64(n))
 			}
+			if e.readerBytes.Load() > 16<<20 {
+				// far more than any scenario sends: the judge reports the surplus
+				e.count("reader_stopped_at_16MiB", 1)
+				return
+			}
 			if n > len(buf) || n < 0 {
 				e.vio("api:read:count", "Read returned n=%d for a %d byte buffer", n, len(buf))
 				return
@@ -650,7 +692,7 @@ func (e *env) writer(done chan struct{}) {
 			n, err := e.conn.Write(p)
 			if err != nil || n != len(p) {
 				e.mu.Lock()
-				e.writeErr = fmt.Errorf("Write #%d of %d bytes returned (%d, %v)", i, len(p), n, err)
+				e.writeErr = fmt.Errorf("Write #%d of %d bytes returned (%d, %w)", i, len(p), n, err)
 				e.mu.Unlock()
 				return
 			}
@@ -683,7 +725,7 @@ func (e *env) flush(when string) {
 	err := f.Flush()
 	if err != nil {
 		if !e.sc.tolerant() && !e.isAborted() {
-			e.vio("api:flush:error", "Flush (%s) failed although the TNC answered every 'Y' query: %v", when, err)
+			e.apiErr("api:flush:error", err, "Flush (%s) failed although the TNC answered every 'Y' query: %v", when, err)
 		}
 		return
 	}
@@ -793,7 +835,7 @@ func (e *env) run() {
 			return
 		}
 		if err != nil && !sc.tolerant() && !e.isAborted() {
-			e.vio("api:close:error", "Close (%s) failed although the TNC answered everything: %v", when, err)
+			e.apiErr("api:close:error", err, "Close (%s) failed although the TNC answered everything: %v", when, err)
 		}
 	}
 
@@ -912,6 +954,14 @@ func (e *env) writeError() error {
 func (e *env) teardown() {
 	e.setPhase("teardown")
 	aborted := e.isAborted()
+	e.mu.Lock()
+	dropped := e.dropLink
+	e.mu.Unlock()
+	if !aborted && !dropped && !e.regFailed && e.sc.ShortX < 0 && e.tnc != nil && e.sim.LinkEnded() {
+		// nobody asked for the link to end: the library gave up on a TNC that did nothing wrong
+		e.linkLost = true
+		e.vio("tnc-link:closed-by-library", "the library closed the TNC link in the middle of the scenario although the TNC sent only well-formed frames (link=%s seg=%s)", e.sc.Link, e.sc.Seg)
+	}
 	if aborted {
 		// unblock whatever hangs inside the library
 		e.sim.Stop()
@@ -952,6 +1002,62 @@ func (e *env) teardown() {
 	e.judge(rep, aborted)
 }
 
+// classifyMismatch names the way got differs from sent: a foreign frame was delivered, whole
+// frames are missing (gap; the indices of the lost frames are returned), or anything else.
+// "Missing frames" is decided exactly: got must be the concatenation of a subsequence of the sent
+// frames (all ways of matching are followed, since short payloads can match by coincidence).
+func classifyMismatch(got, sent []byte, sizes []int) (kind string, lost []int) {
+	if bytes.Contains(got, []byte("!FOREIGN!")) {
+		return "foreign-frame-delivered", nil
+	}
+	type path struct {
+		prev  *path
+		frame int // index of the frame consumed to get here
+	}
+	reach := map[int]*path{0: {frame: -1}}
+	off := 0
+	for i, sz := range sizes {
+		fr := sent[off : off+sz]
+		off += sz
+		var add []int
+		for pos := range reach {
+			if pos+sz <= len(got) && bytes.Equal(got[pos:pos+sz], fr) {
+				add = append(add, pos)
+			}
+		}
+		// a frame may extend only paths that existed before it was considered
+		ext := map[int]*path{}
+		for _, pos := range add {
+			if _, dup := reach[pos+sz]; !dup {
+				ext[pos+sz] = &path{prev: reach[pos], frame: i}
+			}
+		}
+		for k, v := range ext {
+			reach[k] = v
+		}
+		if len(reach) > 1<<16 {
+			return "corrupt", nil
+		}
+	}
+	end := reach[len(got)]
+	if end == nil {
+		return "corrupt", nil
+	}
+	used := map[int]bool{}
+	for p := end; p != nil && p.frame >= 0; p = p.prev {
+		used[p.frame] = true
+	}
+	for i := range sizes {
+		if !used[i] {
+			lost = append(lost, i)
+		}
+	}
+	if len(lost) == 0 {
+		return "corrupt", nil
+	}
+	return "gap", lost
+}
+
 func firstDiff(a, b []byte) int {
 	n := min(len(a), len(b))
 	for i := 0; i < n; i++ {
@@ -966,7 +1072,7 @@ func (e *env) judge(rep simagw.Report, aborted bool) {
 	sc, o := e.sc, e.o
 	e.setPhase("judge")
 	for _, v := range rep.Violations {
-		o.Violate(v.Key, "simulated TNC: %s", v.Desc)
+		e.vio(v.Key, "simulated TNC: %s", v.Desc)
 	}
 	for k, v := range rep.Counters {
 		e.count("sim_"+k, v)
@@ -1001,14 +1107,17 @@ func (e *env) judge(rep simagw.Report, aborted bool) {
 	d := firstDiff(got, sent)
 	switch {
 	case d < len(got) && d < len(sent):
-		kind := "corrupt"
-		if bytes.Contains(got, []byte("!FOREIGN!")) {
-			kind = "foreign-frame-delivered"
-		} else if idx := bytes.Index(sent[d:], got[d:min(len(got), d+24)]); idx > 0 {
-			kind = "gap"
+		kind, lost := classifyMismatch(got, sent, c.TxSizes)
+		what := ""
+		if kind == "gap" {
+			what = fmt.Sprintf("; exactly explained by %d lost frame(s), first lost frame #%d", len(lost), lost[0])
+			if sc.EarlyData > 0 && lost[len(lost)-1] < sc.EarlyData {
+				kind = "lost-behind-connect-notice"
+				what += " - all of them data frames that directly followed the incoming-connection notice"
+			}
 		}
-		e.vio("rx-stream:"+kind, "bytes read by the application differ from the connection's data frames at offset %d (read %d bytes, TNC sent %d in %d frames; %s): got % x..., want % x...",
-			d, len(got), len(sent), c.TxFrames, ctx, got[d:min(len(got), d+12)], sent[d:min(len(sent), d+12)])
+		e.vio("rx-stream:"+kind, "bytes read by the application differ from the connection's data frames at offset %d (read %d bytes, TNC sent %d in %d frames; %s)%s: got % x..., want % x...",
+			d, len(got), len(sent), c.TxFrames, ctx, what, got[d:min(len(got), d+12)], sent[d:min(len(sent), d+12)])
 	case len(got) > len(sent):
 		kind := "extra"
 		if bytes.Contains(got, []byte("!FOREIGN!")) {
@@ -1032,7 +1141,7 @@ func (e *env) judge(rep simagw.Report, aborted bool) {
 	e.count("bytes_app_to_tnc_written", int64(len(succeeded)))
 	e.count("bytes_app_to_tnc_received", int64(len(recv)))
 	if writeErr != nil && !sc.tolerant() && !aborted {
-		e.vio("api:write:error", "%v although the TNC answered every query (%s)", writeErr, ctx)
+		e.apiErr("api:write:error", writeErr, "%v although the TNC answered every query (%s)", writeErr, ctx)
 	}
 	switch {
 	case !bytes.HasPrefix(attempted, recv):
@@ -1084,15 +1193,31 @@ func (e *env) judge(rep simagw.Report, aborted bool) {
 	}
 
 	// the execution exercised the mechanism if bytes crossed the connection and were compared
+	e.omu.Lock()
+	defer e.omu.Unlock()
 	if len(sent)+len(recv) > 0 {
 		o.Sig("%s|%s|%s|p%d|%s%d|rb%d|%s|b%v|w%v|n%d|mf%d|ttl%d|%d", sc.Class, sc.Link, sc.Seg, sc.Port, sc.Mode, sc.Digis, sc.RBuf, sc.End, sc.Bursts, sc.Writes, sc.NoisePct, sc.MaxFrame, sc.TTLMax, sc.Seed)
 	}
 	if o.Sample == nil {
-		ev := rep.Events
-		if len(ev) > 14 {
-			ev = append(append([]simagw.Event(nil), ev[:10]...), ev[len(ev)-4:]...)
+		var log []string
+		for i, ev := range rep.Events {
+			if i >= 12 && i < len(rep.Events)-5 {
+				if i == 12 {
+					log = append(log, fmt.Sprintf("... %d more ...", len(rep.Events)-17))
+				}
+				continue
+			}
+			dir := "app->tnc"
+			if ev.Dir == "tx" {
+				dir = "tnc->app"
+			}
+			l := fmt.Sprintf("%s %s port=%d from=%s to=%s len=%d", dir, ev.Kind, ev.Port, ev.From, ev.To, ev.Len)
+			if ev.Note != "" {
+				l += " (" + ev.Note + ")"
+			}
+			log = append(log, l)
 		}
 		o.Sample = map[string]any{"scenario": sc, "bytes_tnc_to_app": len(sent), "bytes_app_to_tnc": len(recv), "tnc_frames_validated": rep.RxFrames,
-			"exchange_log_first10_last4": ev}
+			"y_polls": c.Polls, "exchange_log_excerpt": log}
 	}
 }
